@@ -13,7 +13,7 @@ TARGETS = ['C08/Props.vo', 'C08/Corr.vo']
 MODEL_TARGETS = ['C08/Corr.vo']
 PROPS_FILE = 'C08/Props.v'
 PROPS_MODULE = 'QV.C08.Props'
-CORR_IMPORTS = ['QV.C08.Model', 'QV.C08.Spec', 'QV.C08.Corr']
+CORR_IMPORTS = ['QV.C08.Model', 'QV.C08.Spec', 'QV.C08.Hist', 'QV.C08.Corr']
 CHECK_CORR = 'check_corr'
 CHECK_SPEC = 'check_spec'
 SHARD = 150
@@ -594,7 +594,8 @@ def gen_trans(rng, depth, chans, dur, opt, const_bias):
         pool = [c for c in range(1, 5) if c not in fwd]
         ins = rng.sample(pool, rng.randint(1, min(2, len(pool))))
         m = [[fs(rng.choice([F(1), F(-1), F(1, 2), F(0), F(2)])) for _ in ins] for _ in outs]
-        return ['trans', opt, sub(fwd + ins), ['linear', ins, outs, m]]
+        shadow = [o for o in outs if o not in ins and rng.random() < 0.2]   # inner channel named like an output: overridden
+        return ['trans', opt, sub(sorted(set(fwd + ins + shadow))), ['linear', ins, outs, m]]
     if kind == 'chain' and strs and rng.random() < 0.45:
         # a parallel-channel transformation feeding a linear one (or the other way round)
         outs = rng.sample(strs, 1)
@@ -875,6 +876,28 @@ def gen_cases(rng, tier, ctx):
     # call histories
     for r, dur, chans in recipes[:(120 if tier == 'quick' else 1500)]:
         cases.append({'kind': 'hist', 'r': r, 'ops': gen_history(rng, dur, chans), 'dur': fs(dur)})
+    # the per-instance cache of TransformingWaveform on purpose: same array object, interleaved channels, content changed
+    # in place between calls, a second array object in between
+    k = 0
+    for r, dur, chans in recipes:
+        if not has_kind(r, ('trans',)):
+            continue
+        k += 1
+        if k > (40 if tier == 'quick' else 400):
+            break
+        n = int(dur / Q4)
+        def grid(m):
+            return [fs(t) for t in sorted(rng.sample([i * F(1, 16) for i in range(1, 4 * n)], m))]
+        m = rng.randint(1, min(4, 4 * n - 1))
+        cs = sorted(chans)
+        ops = [['set', 0, grid(m)], ['set', 1, grid(m)], ['call', rng.choice(cs), 0, False], ['call', rng.choice(cs), 0, rng.random() < 0.5]]
+        if rng.random() < 0.6:
+            ops.append(['set', 0, grid(m)])
+        ops.append(['call', rng.choice(cs), rng.choice([0, 1]), False])
+        ops.append(['call', rng.choice(cs), 0, rng.random() < 0.3])
+        if rng.random() < 0.5:
+            ops += [['set', 1, grid(m)], ['call', rng.choice(cs), 1, False], ['call', rng.choice(cs), 0, False]]
+        cases.append({'kind': 'hist', 'r': r, 'ops': ops, 'dur': fs(dur)})
     for r in history_seeds():
         cases.append({'kind': 'hist', 'r': r, 'ops': [['set', 0, ['0', '1/4', '1/2']], ['call', 1, 0, False],
                                                       ['call', 1, 0, False], ['call', 1, 0, True]], 'dur': '1'})
